@@ -242,6 +242,15 @@ Section Handlers.
     end.
   Definition h_copy : H := fun args kw =>
     match args, kw with [VSig (A2 m)], [] => Ok (VSig (A2 m)) | _, _ => Bad end.
+  (* `np.array(infr, dtype=float)`: a fresh float copy (the model's arrays are exact numbers: the dtype is not modelled);
+     the bare name `float` is translated as a nullary opaque *)
+  Definition h_float : H := fun args kw =>
+    match args, kw with [], [] => Ok (VOpaque "float" []) | _, _ => Bad end.
+  Definition h_array_float : H := fun args kw =>
+    match args, kw with
+    | [VSig (A2 m)], [(k, VOpaque t [])] => if (String.eqb k "dtype" && String.eqb t "float")%bool then Ok (VSig (A2 m)) else Bad
+    | _, _ => Bad
+    end.
   (* bool array + bool array = logical or *)
   Definition h_add : H := fun args kw =>
     match args, kw with
@@ -386,7 +395,8 @@ Section Handlers.
     [ ("np.zeros", h_zeros);
       ("len", h_len);
       ("infr.shape", h_shape);
-      ("infr.copy()", h_copy);
+      ("np.array", h_array_float);
+      ("float", h_float);
       ("<", h_lt);
       (">", h_gt);
       ("getitem", h_getitem);
